@@ -78,6 +78,23 @@ def check_model(rep, dis, rec, conf):
         if masked:
             _check_inert(dis, m, h, G, rng, rp, "as fitted")
         model = m
+    # the same mask written with 0/1 instead of False/True (integer, float, object arrays are all accepted by the parameter
+    # validation): either the fit is refused, or the model uses exactly the features whose entry is true
+    if masked:
+        for kind in ("int", "uint8", "float", "object"):
+            try:
+                m2 = dg.fit_model(h, mask_kind=kind)
+            except (ValueError, TypeError, IndexError) as e:
+                rep.extra.setdefault("non_boolean_masks_refused", []).append(f"{kind}: {type(e).__name__}: {e}"[:120])
+                continue
+            rep.case(("model", dg.hkey(h), "mask-" + kind))
+            feats2 = [int(f) for f, _ in m2.cut_points_list_]
+            if feats2 != used or m2.leaf_scores_.shape[0] != nleaves:
+                dis.add(("cut-list", "mask-dtype"), _size(h), f"{_hdesc(h)} with the mask given as a {kind} array {h['mask']}: fitted "
+                        f"cut_points_list_ covers features {feats2} with {m2.leaf_scores_.shape[0]} leaves; documented: features {used}, "
+                        f"{nleaves} leaves", rp)
+            else:
+                _check_inert(dis, m2, h, G, rng, rp, f"as fitted, {kind} mask", kinds=("normal",))
     dg.install(model, h)
     K = model.n_clusters
     # (ii) memberships are a probability vector per sample at every temperature
@@ -114,6 +131,30 @@ def check_model(rep, dis, rec, conf):
             i = int(err.argmax())
             dis.add(("cell", "prediction"), _size(h), f"{_hdesc(h)} temperature={dg.COLD}: predict_proba({G[i].tolist()}) = "
                     f"{PP[i].tolist()} but its cell {cells_spec[i]} (leaf {int(leaf_spec[i])}) predicts {ref[i].tolist()}", rp)
+        # colder still, and closer to the cut points: as T -> 0 a point 0.01 away from a cut is inside its cell too.  Each grid
+        # point is moved to within 0.01 of the nearest cut on ITS side (the cell tuple is unchanged), temperature 1e-5
+        Gn = np.array(G, dtype=float)
+        for (f, cuts) in model.cut_points_list_:
+            for i in range(len(Gn)):
+                x = Gn[i, f]
+                below = [c for c in cuts if c < x]
+                above = [c for c in cuts if c > x]
+                if below:
+                    Gn[i, f] = max(below) + 0.01
+                elif above:
+                    Gn[i, f] = min(above) - 0.01
+        model.temperature = 1e-5
+        Pn = model.predict_proba(Gn)
+        Ln = np.asarray(model._infer(Gn) is not None and model._leaf)
+        model.temperature = dg.COLD
+        if np.all(np.isfinite(Pn)) and Ln.shape == (len(G), nleaves):
+            errn = np.abs(Pn - ref).max(axis=1)
+            if np.any(errn > 1e-6) or np.any(Ln.argmax(axis=1) != leaf_spec):
+                i = int(errn.argmax())
+                dis.add(("cell", "cold-near-cut"), _size(h), f"{_hdesc(h)} temperature=1e-5: the point {Gn[i].tolist()} (0.01 away from a cut, in "
+                        f"cell {cells_spec[i]}) predicts {Pn[i].tolist()}, its cell predicts {ref[i].tolist()}", rp)
+        else:
+            dis.add(("membership", "cold-near-cut"), _size(h), f"{_hdesc(h)} temperature=1e-5: non-finite predictions or wrong leaf shape", rp)
         groups = {}
         for i, c in enumerate(cells_spec):
             groups.setdefault(c, []).append(i)
